@@ -13,17 +13,20 @@ for d in sorted(glob.glob(os.path.join(ROOT, "seeded", "*", "meta.json"))):
         if x.get("first"):
             first = x["first"][-1].strip()
     summ = " ".join(m.get("summary", "").split())
-    rows.append((name, m.get("property", ""), summ[:160], "yes" if det else "no", first[:150].replace("|", "/")))
+    conf = m.get("verification", {}).get("confirmed", True)
+    rows.append((name, m.get("property", ""), summ[:160], ("yes" if det else "no") if conf is not False else "not confirmed", first[:150].replace("|", "/")))
 out = ["# Seeded changes", "",
        "Breaking changes produced by sub-agents that were given only the text of one property and a scratch worktree of /repo.",
        "Each was confirmed in a scratch worktree (the 226 tests pass with it, its demonstration fails with it and passes without it),",
        "then applied to /repo, checked with `bin/check <property>` (quick tier, seed 1) and removed again. `patch.diff` applies with",
        "`git -C /repo apply`; `demo_test.go.txt` is the demonstration; `detected-<id>.json` the replay the check produced.",
-       "`r2-*` are from the second round, whose agents were asked to avoid the most obvious code site.", "",
+       "`r2-*` are from the second round, whose agents were asked to avoid the most obvious code site; `r3-*` (10 properties) and",
+       "`r4-*` (12 properties) from two later rounds with the same instruction. A change whose confirmation fails (the suite does not",
+       "pass with it on the current tree) is listed as not confirmed and not counted.", "",
        "| change | property | what was changed | caught by its property's quick check | first report |", "|---|---|---|---|---|"]
 for r in rows:
     out.append("| %s | %s | %s | %s | %s |" % r)
-n = len(rows); c = sum(1 for r in rows if r[3] == "yes")
+n = sum(1 for r in rows if r[3] != "not confirmed"); c = sum(1 for r in rows if r[3] == "yes")
 out += ["", "%d of %d caught by the quick check of the property they were written against." % (c, n), ""]
 open(os.path.join(ROOT, "seeded", "README.md"), "w").write("\n".join(out))
 print(c, n)
